@@ -465,5 +465,63 @@ pub fn generate_tools(sink: &mut Sink, seed: u64, thorough: bool) {
             sink.stat(&format!("toolfile_{}", vn.split('@').next().unwrap_or("")));
         }
     }
+    // ---- e57-unpack against the GROUND TRUTH (the bytes handed to the writer), not only against what the
+    //      library returns: images with masks behind a spacer blob whose length sweeps the page residues,
+    //      so that every blob section header meets a page boundary
+    let mut r = (seed % 7) as usize;
+    let step = if thorough { 1 } else { 7 };
+    let mut sweep: Vec<usize> = vec![];
+    while r < 1100 {
+        sweep.push(r);
+        r += step;
+    }
+    if !thorough {
+        sweep.extend(930..=960);
+        sweep.extend(585..=605);
+    }
+    for (k, r) in sweep.iter().enumerate() {
+        let img = Stmt::Img {
+            guid: format!("img-{k}"),
+            body: vec![
+                ImgStmt::Vis { fmt: 'P', data: Data::Gen(40 + k % 50, k), w: 3, h: 4, mask: Some(Data::Gen(9 + k % 7, k + 1)) },
+                ImgStmt::Pin { fmt: 'J', data: Data::Gen(300 + k % 90, k + 2), w: 5, h: 6, f: [1f64.to_bits(), 2f64.to_bits(), 3f64.to_bits(), 4f64.to_bits(), 5f64.to_bits()], mask: Some(Data::Gen(1021, k + 3)) },
+            ],
+            end: true,
+        };
+        let prog = Program { guid: "unpack".into(), stmts: vec![Stmt::Blob(Data::Gen(*r, 3)), img, Stmt::Fin] };
+        let dev = SimDev::new(vec![]);
+        let run = execute(&prog, &dev);
+        sink.oracle_evals += 1;
+        let case_id = format!("unpack spacer={r} {}", prog.case_line(&library_version()));
+        if run.panicked || run.results.iter().any(|x| x == "err") {
+            sink.fail("C20", "tools/unpack-source-not-written", &case_id, "writing an image behind a spacer blob failed");
+            continue;
+        }
+        let path = format!("{dir}/u{k}.e57");
+        std::fs::write(&path, &run.file).ok();
+        let out = Command::new(&unpack).arg(&path).output();
+        let folder = format!("{path}_unpacked");
+        let okrun = out.map(|o| o.status.success()).unwrap_or(false);
+        let want: Vec<(&str, Vec<u8>)> = vec![
+            ("image_0_preview.png", Data::Gen(40 + k % 50, k).bytes()),
+            ("image_0_preview_mask.png", Data::Gen(9 + k % 7, k + 1).bytes()),
+            ("image_0_pinhole.jpeg", Data::Gen(300 + k % 90, k + 2).bytes()),
+            ("image_0_pinhole_mask.png", Data::Gen(1021, k + 3).bytes()),
+        ];
+        if !okrun {
+            sink.fail("C20", "tools/unpack-failed", &case_id, "e57-unpack failed on a file the writer produced");
+        } else {
+            for (name, bytes) in want {
+                let got = std::fs::read(format!("{folder}/{name}")).ok();
+                if got.as_ref() != Some(&bytes) {
+                    sink.fail("C20", "tools/unpack-image-bytes", &case_id, &format!("{name}: {} bytes handed to the writer, e57-unpack wrote {:?} bytes, equal={}", bytes.len(), got.as_ref().map(|g| g.len()), got.as_ref() == Some(&bytes)));
+                    break;
+                }
+            }
+        }
+        let _ = std::fs::remove_dir_all(&folder);
+        let _ = std::fs::remove_file(&path);
+        sink.stat("unpack_ground_truth");
+    }
     let _ = std::fs::remove_dir_all(&dir);
 }
